@@ -308,7 +308,7 @@ impl Check for C10 {
         "C10"
     }
     fn ncases(&self, tier: Tier) -> u64 {
-        tier.sz(8000, 100000)
+        tier.sz(32000, 500000)
     }
     fn rule(&self) -> &'static str {
         "one abstract grammar per case, decorated with optional constructs (%token bare names, precedence levels, %prec, %epp, %avoid_insert, %expect(-rr), %parse-param, actions, action types, Eco %implicit_tokens; symbol/identifier/multi-byte/quote-containing token names) and rendered in 6 (quick) / 12 (thorough) layouts (spaces/tabs/newlines/CRLF, // and /* */ comments incl. tricky contents at every legal gap, ' vs \" vs bare names, shuffled declaration order, split rule definitions, %empty, %grmtools header + from_str); every accessor of the built YaccGrammar is compared with the abstract grammar (rules in order of first definition, productions in source order, symbols, start production, token set, precedences, %epp, %avoid_insert, %expect, actions, action types, parse-param, density, index ranges, rule/token/production spans). Non-trivial = rendering uses >= 4 distinct optional constructs; distinct by rendering text."
@@ -317,7 +317,7 @@ impl Check for C10 {
         vec!["token numbering order is not asserted (only density and set equality)", "action spans and the span of the added start production are outside the statement"]
     }
     fn floor(&self, tier: Tier) -> u64 {
-        tier.sz(10000, 100000)
+        tier.sz(20000, 200000)
     }
     fn required_counters(&self, _t: Tier) -> Vec<&'static str> {
         vec!["renderings", "accessor_comparisons", "renderings_with_header", "renderings_eco_implicit", "renderings_with_split_rules", "renderings_with_comments"]
